@@ -125,9 +125,9 @@ func vReplayBehaviour(t *testing.T, rep *vfReport, b vBehaviour, seed int64) {
 			r.clientStep(b.Steps[i])
 		}
 		if r.drift && b.Cfg.Role == "node" {
-			// the remainder is not TLC-guided any more (gates would not line up): finish with the harness's
-			// own tear-down. Client-role steps do not depend on the predicted state: they are all executed
-			// and the property is evaluated on each of them.
+			// the remainder is not TLC-guided any more (gates and predicted pre-states would not line up):
+			// finish with the harness's own tear-down. Client-role steps do not depend on the predicted
+			// state: they are all executed and the property is evaluated on each of them.
 			break
 		}
 	}
@@ -269,11 +269,109 @@ func (r *vReplayer) nodeStep(s vStep) {
 				a.S, r.b.Cfg.StreamAcct[a.S-1], a.Sp, a.F, s.Out.Code, before.Tags, after.Tags, before.RecPat, after.RecPat))
 		}
 	}
+	r.checkWithdrawn(a, before, after)
 	r.checkViews(exp, after)
 
 	// ---- (b) conformance with the state the spec predicts
 	r.compareViews(exp, after)
 	r.compareStatus(s, frames)
+}
+
+// what was withdrawn (unsubscribe, eviction, closed space) must be gone from all three views right
+// after the call - whatever else the engine holds
+func (r *vReplayer) checkWithdrawn(a vAct, before, after vViews) {
+	cfg := r.b.Cfg
+	inSpace := func(keys []string, sp string) []string {
+		var res []string
+		for _, k := range keys {
+			if strings.HasPrefix(k, sp+"|") {
+				res = append(res, k)
+			}
+		}
+		return res
+	}
+	left := func(i int, sp string, only map[string]bool) []string {
+		var res []string
+		for _, k := range append(inSpace(after.Tags[i], sp), inSpace(after.RecPat[i], sp)...) {
+			if only == nil || only[k] {
+				res = append(res, k)
+			}
+		}
+		return res
+	}
+	// ... and nothing else may be touched by it
+	keep := func(i int, sp string) {
+		bt, at := inSpace(before.Tags[i], sp), inSpace(after.Tags[i], sp)
+		br, ar := inSpace(before.RecPat[i], sp), inSpace(after.RecPat[i], sp)
+		if !vEqStrings(bt, at) || !vEqStrings(br, ar) {
+			r.violate("interest-of-others-changed:"+a.Act, fmt.Sprintf("%+v changed the interest of stream %d in space %s, which it does not concern: tags %v -> %v, record %v -> %v", a, i+1, sp, bt, at, br, ar))
+		}
+	}
+	if before.Tags != nil {
+		for i := 0; i < cfg.NStreams; i++ {
+			for _, sp := range cfg.Spaces {
+				if vIn(cfg.BadSpaces, sp) {
+					continue
+				}
+				acct := cfg.StreamAcct[i]
+				switch a.Act {
+				case "Unsub1":
+					if i != a.S-1 || sp != a.Sp {
+						keep(i, sp)
+					}
+				case "EvictMember":
+					if sp != a.Sp || acct != a.Acct {
+						keep(i, sp)
+					}
+				case "Revalidate":
+					if sp != a.Sp || r.e.mem.isMember(acct, sp) {
+						keep(i, sp)
+					}
+				case "CloseSpace":
+					if sp != a.Sp {
+						keep(i, sp)
+					}
+				case "OnStreamClose", "RemoveStream":
+					if i != a.S-1 {
+						keep(i, sp)
+					}
+				}
+			}
+		}
+	}
+	switch a.Act {
+	case "Unsub1":
+		var only map[string]bool
+		if len(a.P) > 0 {
+			only = map[string]bool{}
+			for _, p := range a.P {
+				only[a.Sp+"|"+p.key()] = true
+			}
+		}
+		if l := left(a.S-1, a.Sp, only); len(l) > 0 {
+			r.violate("unsubscribed-pattern-still-registered", fmt.Sprintf("stream %d unsubscribed %v of space %s but still holds %v", a.S, a.P, a.Sp, l))
+		}
+	case "EvictMember", "Revalidate":
+		for i := 0; i < cfg.NStreams; i++ {
+			acct := cfg.StreamAcct[i]
+			evicted := acct == a.Acct
+			if a.Act == "Revalidate" {
+				evicted = !r.e.mem.isMember(acct, a.Sp)
+			}
+			if l := left(i, a.Sp, nil); evicted && len(l) > 0 {
+				r.violate("evicted-member-still-registered", fmt.Sprintf("%s of space %s: stream %d of account %s still holds %v", a.Act, a.Sp, i+1, acct, l))
+			}
+		}
+	case "CloseSpace":
+		for i := 0; i < cfg.NStreams; i++ {
+			if l := left(i, a.Sp, nil); len(l) > 0 {
+				r.violate("closed-space-still-registered", fmt.Sprintf("CloseSpace(%s): stream %d still holds %v", a.Sp, i+1, l))
+			}
+		}
+		if vIn(after.RemoteDom, a.Sp) {
+			r.violate("closed-space-still-registered", fmt.Sprintf("CloseSpace(%s): the space trie is still there", a.Sp))
+		}
+	}
 }
 
 func vPatternMatch(tags []vTag, sp string, t vSegs) bool {
